@@ -44,7 +44,11 @@ GROUPS = [
     (["mm:testlib_2.0.0,score_1.1.0"], [("mm:", "testlib_2.0.0"), ("mm:", "score_1.1.0")]),
     ('["8.3.0", "sc:score_2.0.0"]', [("", "8.3.0"), ("sc:", "score_2.0.0")]),
     ('["8.2.0", "mm:testlib_2.0.0,score_1.1.0"]', [("mm:", "score_1.1.0"), ("", "8.2.0")]),
+    # members of different generations (the character rules changed with 8.3.0): each is judged by its own rules
+    (["8.2.0", "sc:score_2.0.0"], [("", "8.2.0"), ("sc:", "score_2.0.0")]),
+    (["aa:8.3.0", "sc:score_1.1.0"], [("aa:", "8.3.0"), ("sc:", "score_1.1.0")]),
 ]
+MIXED_GENERATION = {len(GROUPS) - 2, len(GROUPS) - 1}
 MERGED = [["score_1.1.0", "testlib_2.0.0"], ["testlib_2.0.0", "score_1.1.0"]]
 TREE_KINDS = ["unknown-tag", "extension-forbidden", "requires-child", "bad-unit", "bad-value", "repeated-tag",
               "repeated-group", "taggroup-outside-group", "toplevel-nested", "empty-group", "undeclared-def",
@@ -80,6 +84,25 @@ def err_codes(schema, defs, text):
     return sorted(i["code"] for i in issues if i.get("severity", 1) == ErrorSeverity.ERROR)
 
 
+def err_codes_with_rules_of(schema, rules_from, defs, text):
+    """Classifier of the listed finding mixed-generation-character-rules: the codes the member's own schema gives when
+    its validator is handed the character / value rules switch of another schema (what happens inside a group)."""
+    from hed.models.hed_string import HedString
+    from hed.models.definition_dict import DefinitionDict
+    from hed.validator.hed_validator import HedValidator
+    from hed.validator.util.class_util import UnitValueValidator
+    from hed.validator.util.char_util import CharRexValidator
+    from hed.errors.error_types import ErrorSeverity
+    dd = DefinitionDict(defs, schema) if defs else None
+    v = HedValidator(schema, def_dicts=dd)
+    flag = rules_from.schema_83_props
+    v._validate_characters = flag
+    v._unit_validator = UnitValueValidator(modern_allowed_char_rules=flag)
+    v._char_validator = CharRexValidator(modern_allowed_char_rules=flag)
+    issues = v.validate(HedString(text, schema, def_dict=dd), allow_placeholders=False)
+    return sorted(i["code"] for i in issues if i.get("severity", 1) == ErrorSeverity.ERROR)
+
+
 def check_relational(case, rec):
     versions, _ = GROUPS[case["group"]]
     grp = env.schema(versions)
@@ -92,8 +115,15 @@ def check_relational(case, rec):
         return
     rec.mon("prefixed-equals-alone")
     if a != b:
+        key = None
+        if case["group"] in MIXED_GENERATION:
+            try:
+                if err_codes_with_rules_of(alone, grp, case["defs"], case["text"]) == b:
+                    key = "mixed-generation-character-rules"
+            except Exception:  # noqa
+                pass
         rec.violation("error codes differ between the member alone and the prefixed annotation in the group",
-                      dict(case, codes_alone=a, codes_group=b))
+                      dict(case, codes_alone=a, codes_group=b), key=key)
     # expanding and shrinking definitions: the prefixed annotation goes through the same steps as the unprefixed one
     if case["defs"] and case.get("base") == "valid" and case["ns"]:
         from hed.models.hed_string import HedString
@@ -114,7 +144,18 @@ def check_relational(case, rec):
         rec.mon("prefixed-expand-shrink-equals-alone")
         strip = lambda t: t.replace(case["ns"], "")                 # noqa
         if (strip(steps[1][0]), steps[1][1], strip(steps[1][2])) != (strip(steps[0][0]), steps[0][1], strip(steps[0][2])):
-            rec.violation("expanding / shrinking definitions in a prefixed annotation differs from the unprefixed one", case)
+            key = None
+            if case["group"] in MIXED_GENERATION and strip(steps[1][0]) == strip(steps[0][0]) \
+                    and strip(steps[1][2]) == strip(steps[0][2]):
+                # the texts agree, only the codes of the validation step differ: is it the rules switch?
+                try:
+                    exp_text = HedString(case["text"], alone, DefinitionDict(case["defs"], alone)).expand_defs().get_as_short()
+                    if err_codes_with_rules_of(alone, grp, case["defs"], exp_text) == steps[1][1]:
+                        key = "mixed-generation-character-rules"
+                except Exception:  # noqa
+                    pass
+            rec.violation("expanding / shrinking definitions in a prefixed annotation differs from the unprefixed one", case,
+                          key=key)
 
 
 def check_bad_prefix(case, rec):
@@ -411,9 +452,16 @@ def run_history(shard, rec):
         got = [x.get(k) if isinstance(x.get(k), str) else (x.get(k) or [None] * len(cases))[i]
                for x in (a, b) for k in ("alone", "group")]
         if len({repr(g) for g in got}) != 1:
+            key = None
+            if shard["group"] in MIXED_GENERATION and got[0] == got[2] and got[1] == got[3]:
+                try:     # the order of loading plays no part in it; is it the rules switch?
+                    if err_codes_with_rules_of(env.schema(shard["member"]), env.schema(versions), defs, c["text"]) == got[1]:
+                        key = "mixed-generation-character-rules"
+                except Exception:  # noqa
+                    pass
             rec.violation("the verdict depends on whether the prefixed group or the member alone was loaded and used first",
                           dict(case0, text=c["text"], ptext=c["ptext"], defs=defs, pdefs=pdefs,
-                               alone_first=[got[0], got[1]], group_first=[got[2], got[3]]))
+                               alone_first=[got[0], got[1]], group_first=[got[2], got[3]]), key=key)
             break
 
 
